@@ -78,10 +78,12 @@ FoundVia(L, k, r) ==
     ELSE IF r.present THEN k \in DOMAIN L
     ELSE TRUE
 
-VARIABLE n
-Init == n \in DOMAIN All
-Next == n' = n
+\* one initial state per tree (the sequence is bound once by the LET: TLC memoises LET-bound values,
+\* whereas every reference to `All` would rebuild the whole sequence)
+VARIABLE ast
+Init == LET A == All IN \E i \in DOMAIN A : ast = A[i]
+Next == ast' = ast
 
-SoundAll == \A L \in Maps : Eval(All[n], L, CTab) => Sat(L, LR(All[n]))
-IndexSound == \A L \in Maps : Eval(All[n], L, CTab) => \A k \in DOMAIN LR(All[n]) : FoundVia(L, k, LR(All[n])[k])
+SoundAll == LET m == LR(ast) IN \A L \in Maps : Eval(ast, L, CTab) => Sat(L, m)
+IndexSound == LET m == LR(ast) IN \A L \in Maps : Eval(ast, L, CTab) => \A k \in DOMAIN m : FoundVia(L, k, m[k])
 =============================================================================
